@@ -116,7 +116,7 @@ class Sim:
     """One world + one output directory. Used as a context manager."""
 
     def __init__(self, scn, schedule=(), lock_mode="classic", file_yields=False, faults=None, snapshots=False,
-                 observe_results=False, max_steps=60000, observe_rows=False):
+                 observe_results=False, max_steps=8000, observe_rows=False, exotic=()):
         self.scn = scn
         self.base = tempfile.mkdtemp(prefix="case_", dir=scratch_root())
         self.root = os.path.join(self.base, "w")
@@ -152,7 +152,13 @@ class Sim:
             "JADE_REGISTRY": os.environ["JADE_REGISTRY"],
         }
         self.w.observe_rows = observe_rows
-        self.w.schedule = list(schedule)
+        self.w.exotic_plan = sorted((dict(x) for x in exotic), key=lambda x: x["at"])
+        if isinstance(schedule, dict):
+            self.w.schedule = list(schedule.get("picks", []))
+            self.w.pauses = [dict(r) for r in schedule.get("pauses", [])]
+            self.w.prio = list(schedule["prio"]) if schedule.get("prio") else None
+        else:
+            self.w.schedule = list(schedule)
         self.recovery_rounds = 0
         self.stuck = None
         self.user_n = 0
